@@ -131,7 +131,9 @@ Fixpoint indent_element (c : oconfig) (o : iopts) (parent : option anode) (node 
   let st :=
     match an_name node with
     | Some ((_ :: _) as nm) =>
-        if negb (str_eqb nm s_div) || match primary with [] => true | _ => false end
+        (* has_primary = any(attr.value is not None for attr in primary)   (repaired: fix fb9d494) *)
+        if negb (str_eqb nm s_div)
+           || negb (existsb (fun a => match aa_value a with Some _ => true | None => false end) primary)
         then push_str c (io_before_name o ++ nm ++ io_after_name o) st
         else st
     | _ => st
